@@ -629,9 +629,15 @@ impl FdOp for SpliceOp {
             splice_off_in: *off_in,
         };
         submission.0.len = *length;
-        submission.0.__bindgen_anon_3 = libc::io_uring_sqe__bindgen_ty_3 {
-            splice_flags: flags.0,
-        };
+        let mut splice_flags = flags.0;
+        if let (SpliceDirection::To, fd::Kind::Direct) = (*direction, fd.kind()) {
+            // `fd` is the input, not the output, of the splice. For direct
+            // descriptors that means we can't use `IOSQE_FIXED_FILE`, which
+            // applies to `fd_out`, but need `SPLICE_F_FD_IN_FIXED` instead.
+            submission.0.flags &= !libc::IOSQE_FIXED_FILE;
+            splice_flags |= libc::SPLICE_F_FD_IN_FIXED;
+        }
+        submission.0.__bindgen_anon_3 = libc::io_uring_sqe__bindgen_ty_3 { splice_flags };
         submission.0.__bindgen_anon_5 = libc::io_uring_sqe__bindgen_ty_5 {
             splice_fd_in: fd_in,
         };
